@@ -6,7 +6,9 @@ Correspondence: every specification is rendered by the harness' own trivial mapp
 `root(V, subj(..), comp(..)…)`, realized by the real pyrealb (elision switched off for the comparison: elision is
 C06's) and by the model driver; token lists (kind, lemma, form, liaison) and exceptions are compared.
 Oracle: the text of C05 on the tokens of the unmodified realization; stratum `cross_language`: the same clause built
-under loadFr() and realized after loadEn(), and built with lang="fr" everywhere under loadEn(), gives the same text."""
+under loadFr() and realized after loadEn(), and built with lang="fr" everywhere under loadEn(), gives the same text; stratum `history`: the flag-less clause is realized first, then the flags are applied to a
+clone() / to the same object — the text must be the single-shot one (clauses without `.pro()` whose flag-less form
+survives a realization unchanged)."""
 import json
 
 from harness import core
@@ -87,6 +89,10 @@ def replay(path):
         print(nota, "->", a["err"] or a["text"])
         for v in G.oracle_c05(spec, nota, a):
             print("   violates", v)
+        for mode in G.HISTORY_MODES:
+            t = G.realize_history(spec, nota, mode) if spec.get("typ") else None
+            if t is not None and t != (("!" + a["err"]) if a["err"] else a["text"]):
+                print("   violates ('history', %r): %s" % (mode, t))
         for mode in G.CROSS_MODES:
             t = G.realize_cross(spec, nota, mode)
             if t != (("!" + a["err"]) if a["err"] else a["text"]):
